@@ -317,6 +317,23 @@
  */
 #define BUF_SIZE_INITIAL (64 * (CIF_LINE_LENGTH + 2))
 #define BUF_MIN_FILL          (CIF_LINE_LENGTH + 2)
+#ifdef CIF_API_VERIF
+/*
+ * Verification hooks (off unless CIF_API_VERIF is defined): the scan-buffer tuning constants become variables that a
+ * test harness may set before calling cif_parse(), and a few counters record which rarely-taken buffer-management
+ * branches were reached.  With the variables left at their initial values behavior is identical to the shipped build.
+ */
+size_t cif_verif_buf_size_initial = BUF_SIZE_INITIAL;
+size_t cif_verif_buf_min_fill = BUF_MIN_FILL;
+unsigned long cif_verif_probe[16];
+#undef BUF_SIZE_INITIAL
+#undef BUF_MIN_FILL
+#define BUF_SIZE_INITIAL cif_verif_buf_size_initial
+#define BUF_MIN_FILL cif_verif_buf_min_fill
+#define VERIF_PROBE(i) (cif_verif_probe[(i)] += 1)
+#else
+#define VERIF_PROBE(i) ((void) 0)
+#endif
 
 /* special character codes */
 #define CIF1_MAX_CHAR 0x7E
@@ -3135,6 +3152,7 @@ static int get_more_chars(struct scanner_s *scanner) {
     assert(chars_consumed <= chars_read); /* chars_consumed == chars_read only at the beginning of a parse */
     if (chars_consumed >= scanner->buffer_limit) {
         /* the buffer is empty; reset it to the beginning */
+        VERIF_PROBE(0);
         assert(scanner->next_char == scanner->text_start);
         scanner->text_start = scanner->buffer;
         TVALUE_SETSTART(scanner, scanner->buffer);
@@ -3147,6 +3165,7 @@ static int get_more_chars(struct scanner_s *scanner) {
 
         if (current_chars * 2 < scanner->buffer_size) {
             /* The current data occupy less than half the buffer; move them to the front of the buffer */
+            VERIF_PROBE(1);
             memmove(scanner->buffer, scanner->text_start, current_chars * sizeof(UChar));
         } else {
             /*
@@ -3159,6 +3178,7 @@ static int get_more_chars(struct scanner_s *scanner) {
              */
             size_t new_size = scanner->buffer_size * 2;
             UChar *new_buffer = (UChar *) malloc(new_size * sizeof(UChar));
+            VERIF_PROBE(2);
 
             if (new_buffer == NULL) {
                 return CIF_MEMORY_ERROR;
@@ -3219,11 +3239,13 @@ static int get_more_chars(struct scanner_s *scanner) {
                     break;
                 } else if ((lead + 1 < bound) && (*(lead + 1) == UCHAR_NL)) {
                     /* end of CRLF-terminated line */
+                    VERIF_PROBE(4);
                     nread -= 1; /* CRLF will be converted to just LF */
                     length = lead - trail;
                     break;
                 } else {
                     /* bare CR is translated to LF without any need to move other data */
+                    VERIF_PROBE(3);
                     *lead = UCHAR_NL;
                 }
             } while (CIF_TRUE);
